@@ -183,7 +183,9 @@ class LostAnchor(Exception):
     pass
 
 
-def load(config="default", repo=None):
+def load(config=None, repo=None):
+    # the thorough tier re-runs every rule over the other feature configurations (VERIF_CONFIG)
+    config = os.environ.get("VERIF_CONFIG") or config or "default"
     return Facts(extract(config, repo))
 
 
